@@ -16,15 +16,19 @@ import (
 	"bytes"
 	"fmt"
 	"math/big"
+	"net"
 	"os"
 	"os/exec"
+	"runtime"
 	"strings"
+	"syscall"
 	"time"
 
 	"gitlab.com/aquachain/aquachain/aqua"
 	"gitlab.com/aquachain/aquachain/aqua/downloader"
 	"gitlab.com/aquachain/aquachain/common"
 	"gitlab.com/aquachain/aquachain/core/types"
+	"gitlab.com/aquachain/aquachain/p2p"
 	"gitlab.com/aquachain/aquachain/params"
 	"gitlab.com/aquachain/aquachain/rlp"
 	"gitlab.com/aquachain/aquachain/verifharness/vh"
@@ -228,9 +232,10 @@ func queueDeliveries(c *vh.Ctx, m *vh.Model, pm *aqua.VerifPM) {
 // ------------------------------------------------------------------ child process
 
 type childRun struct {
-	cmd  *exec.Cmd
-	out  bytes.Buffer
-	done chan error
+	model *vh.Model
+	cmd   *exec.Cmd
+	out   bytes.Buffer
+	done  chan error
 }
 
 func startChild(c *vh.Ctx, only string) *childRun {
@@ -269,6 +274,13 @@ func (cr *childRun) finish(c *vh.Ctx) {
 			c.Violate("subproto-consumer-hang/"+strings.TrimPrefix(l, "HANG "), "a sync / fetch driven by an adversarial peer did not come back within its watchdog", H{"kind": "child-case", "case": strings.TrimPrefix(l, "HANG ")})
 		case strings.HasPrefix(l, "BASELINE-FAILED"):
 			c.Fatal("child: honest baseline did not work: %s", l)
+		case strings.HasPrefix(l, "MEMORY "):
+			c.Violate("subproto-consumer-memory/"+last, "the node's heap exceeded the ceiling while serving: "+l, H{"kind": "child-case", "case": last})
+		case strings.HasPrefix(l, "HDR "):
+			f := strings.Fields(l)
+			if len(f) == 8 && cr.model != nil {
+				c.Correspond("handleMsg(GetBlockHeaders, four modes)~serve_headers", last, f[7], cr.model.Ask("hdrs "+strings.Join(f[1:7], " ")))
+			}
 		case strings.HasPrefix(l, "RESULT "):
 			c.Count("subproto-consumers/result-" + strings.Fields(l)[1])
 		}
@@ -533,6 +545,7 @@ var (
 )
 
 func childMain() {
+	childMemoryCeiling()
 	only := os.Getenv("VERIF_C17_CASE")
 	thorough := os.Getenv("VERIF_C17_TIER") == "thorough"
 	syncWatchdog := 30 * time.Second
@@ -782,5 +795,193 @@ func childMain() {
 		fmt.Printf("RESULT fetcher height=%d connected=%v\n", pm.LocalHeight(), rm.r.Connected())
 		rm.r.Close()
 	})
+	childBaseProtocol(run, thorough)
+	childHeaderQueries(run, thorough, only)
 	fmt.Println("DONE")
+}
+
+// memory ceiling of the child: an address-space limit (a reply buffer sized from an attacker's
+// field must fail to allocate instead of taking the machine down) and a heap watchdog.
+func childMemoryCeiling() {
+	lim := syscall.Rlimit{Cur: 12 << 30, Max: 12 << 30}
+	syscall.Setrlimit(syscall.RLIMIT_AS, &lim)
+	go func() {
+		for {
+			var ms runtime.MemStats
+			runtime.ReadMemStats(&ms)
+			if ms.HeapSys > 3<<30 {
+				fmt.Printf("MEMORY heap grew to %d bytes\n", ms.HeapSys)
+				os.Exit(5)
+			}
+			time.Sleep(100 * time.Millisecond)
+		}
+	}()
+}
+
+// --- D. base-protocol messages through a real p2p.Peer (run / readLoop / pingLoop / handle) over
+// the real rlpx transport on a net.Pipe: every peer run must end with an error or a disconnect.
+func childBaseProtocol(run func(string, func()), thorough bool) {
+	rng := vh.NewRNG(7)
+	type bm struct {
+		code    uint64
+		payload []byte
+	}
+	enc := func(v interface{}) []byte { b, _ := rlp.EncodeToBytes(v); return b }
+	type bc struct {
+		name string
+		msgs []bm
+		ends bool // the message itself must end the peer run
+	}
+	var cases []bc
+	for _, rsn := range []uint64{0, 1, 2, 3, 4, 5, 6, 7, 8, 9, 10, 11, 12, 13, 14, 15, 16, 17, 18, 19, 20, 255, 256, 1 << 31, 1<<63 - 1, 1 << 63, 1<<64 - 1} {
+		cases = append(cases, bc{fmt.Sprintf("disc/reason=%d", rsn), []bm{{p2p.VerifDiscMsg, enc([]uint64{rsn})}}, true})
+	}
+	cases = append(cases,
+		bc{"disc/empty-payload", []bm{{p2p.VerifDiscMsg, nil}}, true},
+		bc{"disc/empty-list", []bm{{p2p.VerifDiscMsg, []byte{0xc0}}}, true},
+		bc{"disc/non-list", []bm{{p2p.VerifDiscMsg, []byte{0x11}}}, true},
+		bc{"disc/string", []bm{{p2p.VerifDiscMsg, []byte{0x83, 1, 2, 3}}}, true},
+		bc{"disc/two-elements", []bm{{p2p.VerifDiscMsg, enc([]uint64{17, 1 << 63})}}, true},
+		bc{"disc/nested-list", []bm{{p2p.VerifDiscMsg, []byte{0xc1, 0xc0}}}, true},
+		bc{"disc/9-byte-int", []bm{{p2p.VerifDiscMsg, []byte{0xca, 0x89, 1, 2, 3, 4, 5, 6, 7, 8, 9}}}, true},
+		bc{"disc/truncated", []bm{{p2p.VerifDiscMsg, []byte{0xc5, 0x11}}}, true},
+		bc{"disc/garbage", []bm{{p2p.VerifDiscMsg, rng.Bytes(40)}}, true},
+		bc{"ping/empty", []bm{{p2p.VerifPingMsg, nil}}, false},
+		bc{"ping/list", []bm{{p2p.VerifPingMsg, []byte{0xc0}}, {p2p.VerifPingMsg, rng.Bytes(300)}}, false},
+		bc{"pong/payloads", []bm{{p2p.VerifPongMsg, nil}, {p2p.VerifPongMsg, rng.Bytes(100)}}, false},
+		bc{"handshake-again", []bm{{p2p.VerifHandshakeMsg, enc([]interface{}{uint(5), "x", []interface{}{}, uint(0), rng.Bytes(64)})}}, false},
+		bc{"unknown-base-codes", []bm{{4, nil}, {5, []byte{0xc0}}, {15, rng.Bytes(50)}}, false},
+		bc{"subprotocol-codes", []bm{{16, []byte{0xc0}}, {32, rng.Bytes(10)}}, false},
+		bc{"code-out-of-range", []bm{{33, []byte{0xc0}}}, true},
+		bc{"code-2^63", []bm{{1 << 63, nil}}, true},
+		bc{"code-2^64-1", []bm{{1<<64 - 1, []byte{0xc0}}}, true},
+		bc{"many-pings-then-disc", []bm{{2, nil}, {2, nil}, {2, nil}, {3, nil}, {p2p.VerifDiscMsg, enc([]uint64{17})}}, true},
+	)
+	for _, x := range cases {
+		x := x
+		run("base/"+x.name, func() {
+			a, b := net.Pipe()
+			s := newSecrets(rng, 16)
+			res := p2p.VerifRunPeer(a, s.aes, s.mac, s.inSeed, s.egSeed) // the node: its ingress is our egress
+			w := p2p.VerifNewFrameRW(b, s.aes, s.mac, s.egSeed, s.inSeed, false)
+			go func() { // drain what the node sends (pongs, its disconnect reason)
+				for {
+					if _, _, _, cls, _ := w.ReadMsg(); cls != "" {
+						return
+					}
+				}
+			}()
+			sent := make(chan struct{})
+			go func() {
+				for _, mm := range x.msgs {
+					b.SetWriteDeadline(time.Now().Add(3 * time.Second))
+					if w.WriteMsg(mm.code, mm.payload) != nil {
+						break
+					}
+				}
+				close(sent)
+			}()
+			select {
+			case <-sent:
+			case <-time.After(8 * time.Second):
+			}
+			closed := false
+			if !x.ends {
+				time.Sleep(30 * time.Millisecond)
+				b.Close()
+				closed = true
+			}
+			select {
+			case r := <-res:
+				fmt.Printf("RESULT base-ended remote=%v closed-by-us=%v\n", r.RemoteRequested, closed)
+			case <-time.After(8 * time.Second):
+				if x.ends {
+					fmt.Println("HANG base/" + x.name + " (peer run did not end on a message that must end it)")
+				} else {
+					fmt.Println("HANG base/" + x.name)
+				}
+			}
+			a.Close()
+			b.Close()
+		})
+	}
+}
+
+// --- E. GetBlockHeaders: the query fields swept over boundary values in all four modes on a
+// connected peer; every reply is printed for the parent, which compares it with serve_headers.
+func childHeaderQueries(run func(string, func()), thorough bool, only string) {
+	const H = 30
+	var pm *aqua.VerifPM
+	var rm *remote
+	setup := func() {
+		if pm == nil {
+			pm, rm, _, _ = newScenario("headers", H, 2, 1)
+			go func() { <-rm.r.Done }()
+		}
+	}
+	skips := []uint64{0, 1, 2, 1 << 31, 1 << 32, 1 << 43, 1<<63 - 1, 1 << 63, 1<<64 - 2, 1<<64 - 1}
+	amounts := []uint64{0, 1, 3, 193, 1 << 63}
+	if thorough {
+		amounts = []uint64{0, 1, 2, 3, 191, 192, 193, 1000, 1<<63 - 1, 1 << 63, 1<<64 - 1}
+		skips = append(skips, 3, 7, 28, 29, 30, 31, 1<<31-1, 1<<42, 1<<62)
+	}
+	for _, hm := range []bool{false, true} {
+		for _, rev := range []bool{false, true} {
+			for _, skip := range skips {
+				for _, amount := range amounts {
+					for _, o := range []int{0, H / 2, H, H + 1} {
+						name := fmt.Sprintf("headers/hash=%v/reverse=%v/skip=%d/amount=%d/origin=%d", hm, rev, skip, amount, o)
+						if only != "" && only != name {
+							continue
+						}
+						setup()
+						fmt.Println("CASE " + name)
+						var origin interface{} = uint64(o)
+						otxt := fmt.Sprint(o)
+						if hm {
+							if o <= H {
+								origin = pm.Hashes[o]
+							} else {
+								origin = common.Hash{0xde, 0xad}
+								otxt = "-"
+							}
+						}
+						q, _ := rlp.EncodeToBytes([]interface{}{origin, amount, skip, rev})
+						if !rm.r.Send(aqua.GetBlockHeadersMsg, q, 5*time.Second) {
+							fmt.Println("RESULT headers-peer-dropped")
+							return
+						}
+						var nums []string
+						got := false
+						for tries := 0; tries < 100 && !got; tries++ {
+							code, payload, ok := rm.r.ReadMsg(10 * time.Second)
+							if !ok {
+								break
+							}
+							if code != aqua.BlockHeadersMsg {
+								continue
+							}
+							var hs []*types.Header
+							if rlp.DecodeBytes(payload, &hs) != nil {
+								break
+							}
+							for _, h := range hs {
+								nums = append(nums, h.Number.String())
+							}
+							got = true
+						}
+						if !got {
+							fmt.Println("HANG " + name + " (no BlockHeaders reply within 10 s)")
+							return
+						}
+						l := "-"
+						if len(nums) > 0 {
+							l = strings.Join(nums, ",")
+						}
+						fmt.Printf("HDR %d %s %s %d %d %s %s\n", H, b01(hm), otxt, amount, skip, b01(rev), l)
+					}
+				}
+			}
+		}
+	}
 }
